@@ -305,6 +305,14 @@ example : PyDateTime.wf ⟨9999, 12, 31, 23, 59, 59, 999999, some 3600000000⟩ 
   refine ⟨⟨by decide, by decide, ?_⟩, by decide⟩
   intro u hu; cases hu; omega
 
+example : XmlTime.toTime ⟨23, 59, 59, 999999999, some 330⟩ = .ok ⟨23, 59, 59, 999999, some 19800000000⟩ ∧
+    timeRepresentable ⟨23, 59, 59, 999999999, some 330⟩ := by
+  refine ⟨rfl, by decide, by decide, by decide, by decide, by decide, by decide, by decide, by decide, ?_⟩
+  intro x hx; cases hx; omega
+
+example : XmlDate.toDate ⟨2024, 2, 29, some 60⟩ = .ok ⟨2024, 2, 29⟩ ∧
+    XmlDate.toDatetime ⟨2024, 2, 29, some 60⟩ = .ok ⟨2024, 2, 29, 0, 0, 0, 0, some 3600000000⟩ := ⟨rfl, rfl⟩
+
 /-- the two precision exclusions are real: one nanosecond is lost on the way out, a
 15-second part of the UTC offset on the way in (and −23:59:30 becomes −24:00,
 which `to_datetime` refuses) -/
